@@ -640,9 +640,9 @@ def r9(ctx):
 
 
 RULES = [r1, r2, r3, r4, r5, r6, r7, r7b, r8, r9]
-EXPLANATION = ("[R9: the header bits Oplog::flush remembers are those of its last header write, and a trace-clearing flush truncates between its two header writes] C06 (files follow the JavaScript on-disk layout): decides agreement of sibling tables — size/encode/decode of every persisted type against the reference field order and byte shapes "
+EXPLANATION = ("C06 (files follow the JavaScript on-disk layout): decides agreement of sibling tables — size/encode/decode of every persisted type against the reference field order and byte shapes "
                "(R1), Entry flag bits set by the encoder vs tested by the decoder vs the table 1/2/4/8 (R2), leader bit layout of writer vs reader (shift 2, header bit 1, partial bit 2, checksum over "
                "bytes [4, 8+len), zones 4/4) (R3), slot table 0/4096/8192 and the offsets of append / truncate / header writes (R4), bitfield page stride of writer vs reader and page-relative little-endian "
-               "words (R5), 40-byte tree records at index*40 with [u64le length][hash] (R6), entries carrying the current header bit and slot choice by the two bits (R7), partial-entry trimming loop able to exit (R8).")
+               "words (R5), 40-byte tree records at index*40 with [u64le length][hash] (R6), entries carrying the current header bit and slot choice by the two bits (R7), partial-entry trimming loop able to exit (R8). R9: the header bits Oplog::flush remembers are those of its last header write, and a trace-clearing flush truncates the log between its two header writes (shared with C02.R5).")
 NOT_DECIDED = "the five-step golden-hash scenario (needs execution); values of version/flag bytes inside promoted constants; equality of the state an independent reader reconstructs."
 ASSUMPTIONS = ["compact_encoding primitives follow the compact-encoding spec", "reference tables frozen from the repository's own layout comments and the JS layout named in the property"]
